@@ -27,9 +27,10 @@ SplitInit == [ph |-> "body", cur |-> NewRev, revs |-> <<>>, err |-> ""]
 
 SplitStep(z, it) ==
     IF z.err # "" THEN z
+    \* comments are white-space everywhere; only the %%EOF marker after the startxref value matters
+    ELSE IF IsCmt(it) /\ ~(z.ph = "sxv" /\ IsPrefixOf(<<37, 69, 79, 70>>, it.v)) THEN z
     ELSE IF z.ph = "body" THEN
-        IF IsCmt(it) THEN z
-        ELSE IF it.it = "obj" THEN [z EXCEPT !.cur.objs = Append(@, it)]
+        IF it.it = "obj" THEN [z EXCEPT !.cur.objs = Append(@, it)]
         ELSE IF IsKw(it, KwXref) THEN [z EXCEPT !.ph = "xref", !.cur.kind = "table", !.cur.xoff = it.s - 1]
         ELSE IF IsKw(it, KwStartxref) THEN [z EXCEPT !.ph = "sx", !.cur.kind = "stream"]
         ELSE [z EXCEPT !.err = "unexpected item in file body"]
@@ -185,12 +186,12 @@ CheckRevision(body, rev, allobjs) ==
 -----------------------------------------------------------------------------
 (* The whole file *)
 
-RdFile(bytes) ==
+RdFileV(bytes, vb) ==
     LET h == FindFrom(bytes, PctPDF, 1) IN
     IF h = 0 THEN [ok |-> FALSE, err |-> "no %PDF- header"]
     ELSE
     LET body == SubSeq(bytes, h, Len(bytes))
-        rd == Read(body, FALSE)
+        rd == ReadV(body, FALSE, vb)
     IN IF ~rd.ok THEN [ok |-> FALSE, err |-> rd.err, at |-> rd.at]
     ELSE
     LET items == rd.items
@@ -235,4 +236,6 @@ RdFile(bytes) ==
                    xrefobjs |-> {chk[i].xrefobj : i \in 1..Len(revs)} \ {0},
                    kind |-> revs[Len(revs)].kind,
                    view |-> view]
+
+RdFile(bytes) == RdFileV(bytes, FALSE)
 =============================================================================
